@@ -101,7 +101,12 @@ func (c08) Gen(r *Rng, tier string, run int) *Trace {
 					g.emit(Op{Obj: s0, M: "Replace", Args: []Val{g.plain(), vInt(r.Intn(L))}}, false)
 				}
 			case 7:
-				g.emit(Op{Obj: s0, M: "Reverse"}, false)
+				if r.Bool(0.5) {
+					g.emit(Op{Obj: s0, M: "Reverse"}, false)
+				} else {
+					// setting or clearing an index option that may already be in that state
+					g.emit(Op{Obj: s0, M: r.PickStr("SetNegativeIndices", "SetForwardIndices"), Args: []Val{vBool(r.Bool(0.4))}}, false)
+				}
 			}
 			continue
 		}
